@@ -349,3 +349,7 @@ Print Assumptions C17_map_copy_minv.
 Print Assumptions C17_map_copy_src_of_root.
 Print Assumptions C17_map_sorted_from_Sorted.
 Print Assumptions ex_three_levels.
+Print Assumptions C17_map_stream_ok_def.
+Print Assumptions C17_map_ins_all_def.
+Print Assumptions C17_map_canon_sorted_def.
+Print Assumptions C17_map_copy_src_ok_def.
